@@ -177,11 +177,17 @@ def run(tier, rng, C):
     # exactly its own length and shares nothing with its neighbours
     mixed = []
     for _ in range(400 if tier == "quick" else 6000):
-        mixed.append(rng.choice(["CSRF %d" % rng.choice([16, 16, 20, 24, 1, 7, 33, 48, 96, 200]), "PKCERAND %d" % rng.choice([32, 32, 40, 43, 48, 64, 96])]))
+        # (now and then a verifier size that is refused: the refusal leaves nothing behind for the next call on the thread)
+        mixed.append(rng.choice(["CSRF %d" % rng.choice([16, 16, 20, 24, 1, 7, 33, 48, 96, 200]), "PKCERAND %d" % rng.choice([32, 32, 40, 43, 48, 64, 96]), "PKCERAND %d" % rng.choice([32, 31, 97, 0, 200, 96])]))
     outs = C.run_impl(mixed)
     raws = []
     for l, o in zip(mixed, outs):
         want = int(l.split(" ")[1])
+        if l.startswith("PKCERAND") and not 32 <= want <= 96:
+            if o.startswith("ok "):
+                fails.append("mixed sequence: %s was not refused" % l)
+                break
+            continue
         if not o.startswith("ok "):
             fails.append("mixed sequence: %s answered %s" % (l, o[:60]))
             break
